@@ -1,6 +1,11 @@
 import A2Verif.Model.Hex
 import A2Verif.Model.Raw
 import A2Verif.Model.Read.Pascal
+import A2Verif.Model.Read.Dos3x
+import A2Verif.Model.Read.Prodos
+import A2Verif.Model.Read.Cpm
+import A2Verif.Model.Read.Fat
+import A2Verif.Model.VolSpec
 /-!
 Driver family `fs` (stateful): the harness mirrors the saved volume into `Raw` unit by unit and asks
 for the independent reading.
@@ -16,6 +21,10 @@ structure St where
   fsid : String := ""
   raw : Raw := { unitLen := 256, units := #[] }
   params : List (String × Nat) := []
+  /-- DOS 3.x: units marked used at format time that no file leads to (recorded at the first reading) -/
+  sysBase : Option (List Nat) := none
+  /-- the previous reading (state before the step being checked) -/
+  prev : Option Vol := none
   deriving Inhabited
 
 def parseParams (toks : List String) : List (String × Nat) :=
@@ -23,10 +32,49 @@ def parseParams (toks : List String) : List (String × Nat) :=
     | [k, v] => v.toNat?.map (fun n => (k, n))
     | _ => none)
 
+def param (st : St) (k : String) : Nat := ((st.params.find? (·.1 == k)).map (·.2)).getD 0
+
 def readVol (st : St) : Except String Vol :=
   match st.fsid with
   | "pascal" => Read.Pascal.read st.raw
+  | "dos33" | "dos32" => Read.Dos3x.read st.raw st.sysBase
+  | "prodos" => Read.Prodos.read st.raw
+  | "cpm2" | "cpm3" => Read.Cpm.read st.raw { bsh := param st "bsh", exm := param st "exm", dsm := param st "dsm", drm := param st "drm",
+                                                al0 := param st "al0", al1 := param st "al1", v3 := param st "v3" == 1 }
+  | "fat" => Read.Fat.read st.raw
   | _ => .error "unsupported-fs"
+
+def fsParams (fsid : String) : FsParams :=
+  match fsid with
+  | "dos33" | "dos32" => { eofRule := fun _ => 0, keepsType := true, keepsAux := false, hasLock := true }
+  | "prodos" => { eofRule := id, keepsType := true, keepsAux := true, hasLock := true }
+  | "pascal" => { eofRule := id, keepsType := true, keepsAux := false, hasLock := false }
+  | "cpm2" => { eofRule := fun n => (n + 127) / 128 * 128, keepsType := false, keepsAux := false, hasLock := true }
+  | "cpm3" => { eofRule := id, keepsType := false, keepsAux := false, hasLock := true }
+  | _ => { eofRule := id, keepsType := false, keepsAux := false, hasLock := true }
+
+def parseChunks (s : String) : Option (List (Nat × Bytes)) :=
+  if s == "-" then some [] else
+  (s.splitOn ",").mapM (fun it => match it.splitOn ":" with
+    | [i, h] => match i.toNat?, Hex.ofHex h with
+      | some n, some b => some (n, b)
+      | _, _ => none
+    | _ => none)
+
+def parseOp (toks : List String) : Option (FsOp × Bool) :=
+  let res (r : String) : Option Bool := if r == "ok" then some true else if r == "err" then some false else none
+  match toks with
+  | ["put", p, r, eof, ty, aux, cs] => do
+    let p ← Hex.ofHex p; let r ← res r; let eof ← eof.toNat?; let ty ← ty.toNat?; let aux ← aux.toNat?; let cs ← parseChunks cs
+    pure (.put p cs eof ty aux, r)
+  | ["delete", p, r] => do let p ← Hex.ofHex p; let r ← res r; pure (.delete p, r)
+  | ["rename", p, q, r] => do let p ← Hex.ofHex p; let q ← Hex.ofHex q; let r ← res r; pure (.rename p q, r)
+  | ["lock", p, r] => do let p ← Hex.ofHex p; let r ← res r; pure (.lock p, r)
+  | ["unlock", p, r] => do let p ← Hex.ofHex p; let r ← res r; pure (.unlock p, r)
+  | ["retype", p, r] => do let p ← Hex.ofHex p; let r ← res r; pure (.retype p, r)
+  | ["mkdir", p, r] => do let p ← Hex.ofHex p; let r ← res r; pure (.mkdir p, r)
+  | ["other", r] => do let r ← res r; pure (.other, r)
+  | _ => none
 
 def fileSummary (f : FileRec) : String :=
   s!"{Hex.toHex f.path}:{if f.isDir then 1 else 0}:{f.owned.length}:{f.eof}"
@@ -55,7 +103,21 @@ def handle (st : St) (toks : List String) : St × String :=
       | .error e => (st, s!"bad {e}")
       | .ok _ =>
         let fl := if v.files.isEmpty then "-" else ",".intercalate (v.files.map fileSummary)
-        (st, s!"ok free={v.free} noleak={if v.noLeak then 1 else 0} files={fl}")
+        let st' := if st.sysBase.isNone && (st.fsid == "dos33" || st.fsid == "dos32") then
+            { st with sysBase := some (v.sys) } else st
+        ({ st' with prev := some v }, s!"ok free={v.free} noleak={if v.noLeak then 1 else 0} files={fl}")
+  | "step" :: rest =>
+    -- refinement check of one real transition: previous reading --op/res--> current reading
+    match parseOp rest, st.prev with
+    | none, _ => (st, "bad-request")
+    | _, none => (st, "bad no-previous-reading")
+    | some (op, ok), some pre =>
+      match readVol st with
+      | .error e => (st, s!"bad unreadable:{e}")
+      | .ok post =>
+        match stepWhy (fsParams st.fsid) pre op ok post with
+        | some why => ({ st with prev := some post }, s!"bad {why}")
+        | none => ({ st with prev := some post }, "ok")
   | _ => (st, "bad-request")
 
 end A2Verif.Drv.Fs
